@@ -298,17 +298,19 @@ fn validate_rpc_limits(
     max_publish_messages: usize,
     max_control_message_size: usize,
 ) -> io::Result<bool> {
+    // Consume length prefix and get message bytes from length-prefixed buffer for validation
+    if !consume_message_prefix(&mut buf)? {
+        return Ok(false);
+    }
+
+    // The limit applies to the protobuf encoding of this one RPC, not to the whole read buffer
+    // (which also holds the length prefix and any frames that follow).
     let message_length = buf.len();
     if message_length > max_message_size {
         return Err(io::Error::new(
             io::ErrorKind::InvalidData,
             format!("message with {message_length}b exceeds maximum of {max_message_size}b",),
         ));
-    }
-
-    // Consume length prefix and get message bytes from length-prefixed buffer for validation
-    if !consume_message_prefix(&mut buf)? {
-        return Ok(false);
     }
 
     let mut publish_count = 0;
@@ -358,7 +360,9 @@ impl Decoder for GossipsubCodec {
             self.max_publish_messages,
             self.max_control_message_size,
         )? {
-            return Ok(None);
+            // Incomplete frame: the inner codec still rejects an oversized declared length as
+            // soon as the prefix has been read, and otherwise waits for more data.
+            return self.codec.decode(src).map(|_| None);
         };
 
         // Safe to decode with prost
